@@ -95,6 +95,16 @@ def compare_fonts(chk, in_bytes, out_bytes, flags, ctx, replay, colr_input):
                 break
         if kern_pairs(fin) != kern_pairs(fout):
             chk.violation(f"{ctx}: kerning (GPOS pair values by glyph name) changed", replay)
+        # every lookup's meaning by glyph name (C11's extraction: substitutions, pair values, anchors, classes, GDEF)
+        from . import c11
+
+        for tag in ("GPOS", "GSUB", "GDEF"):
+            if tag in fin:
+                ma = c11.dump(fin[tag].table)
+                mb = c11.dump(fout[tag].table) if tag in fout else None
+                if ma != mb:
+                    where = c11._first_diff(ma, mb) if mb is not None else "table missing"
+                    chk.violation(f"{ctx}: the meaning of {tag} changed ({str(where)[:160]})", replay)
         if fout["post"].formatType != 2.0:
             chk.violation(f"{ctx}: --keep_glyph_names but post format {fout['post'].formatType}", replay)
     else:
@@ -220,6 +230,14 @@ def thirdparty_font(sc, r, version=1, kerning=True, n_palettes=1, trees=None):
     fea = None
     if kerning and len(plain) >= 2:
         fea = f"feature kern {{ pos {plain[0]} {plain[1]} -50; }} kern;"
+        # mark attachment: the last plain glyph is a mark; every other plain glyph and every colour glyph is a base with
+        # its own anchor (coverage-indexed record arrays that a reordering must keep paired)
+        bases = plain[:-1] + [n for n in sc["target"][1:] if n in sc["colour"]]
+        if len(plain) >= 2 and len(bases) >= 2:
+            mk = plain[-1]
+            rules = " ".join(f"pos base {g} <anchor {200 + 37 * i} {600 + 11 * i}> mark @TOP;" for i, g in enumerate(bases))
+            fea = (f"markClass {mk} <anchor 150 520> @TOP;\n" + fea + f"\nfeature mark {{ {rules} }} mark;\n"
+                   + f"table GDEF {{ GlyphClassDef [{' '.join(bases)}], , [{mk}], ; }} GDEF;")
     return b.font(version=version, fea=fea)
 
 
